@@ -282,11 +282,18 @@ Section Templates.
     = Some (tot_row_default NM c t).
   Proof. destruct t as [[[name p] n] s]. unfold tot_row_default. tcompute. tclose. Qed.
 
+  Lemma default_funcs_ok : forallb (node_funcs_ok fe) default_ast = true.
+  Proof. vm_compute. reflexivity. Qed.
+  Lemma left_funcs_ok : forallb (node_funcs_ok fe) left_ast = true.
+  Proof. vm_compute. reflexivity. Qed.
+  Lemma summary_funcs_ok : forallb (node_funcs_ok fe) summary_ast = true.
+  Proof. vm_compute. reflexivity. Qed.
+
   Theorem exec_default (it : report_item NM) :
     exec_template fe default_ast (item_value NM it) = Some (render_default NM c it).
   Proof.
+    unfold exec_template. rewrite default_funcs_ok.
     rewrite render_default_rows, default_ast_parts. destruct it as [t els tots]. cbn [ri_time ri_elements ri_totals].
-    unfold exec_template.
     erewrite exec_list_cons; [| apply exec_action with (s := fdate c t); reflexivity |].
     2:{ eapply exec_list_cons.
         - rewrite exec_if_true by reflexivity.
@@ -342,8 +349,8 @@ Section Templates.
   Theorem exec_left (it : report_item NM) :
     exec_template fe left_ast (item_value NM it) = Some (render_left NM c it).
   Proof.
+    unfold exec_template. rewrite left_funcs_ok.
     rewrite render_left_rows, left_ast_parts. destruct it as [t els tots]. cbn [ri_time ri_elements ri_totals].
-    unfold exec_template.
     erewrite exec_list_cons; [| apply exec_action with (s := fdate c t); reflexivity |].
     2:{ eapply exec_list_cons.
         - rewrite exec_if_true by reflexivity.
@@ -383,8 +390,8 @@ Section Templates.
   Theorem exec_summary (it : report_item NM) :
     exec_template fe summary_ast (item_value NM it) = Some (render_summary NM c it).
   Proof.
+    unfold exec_template. rewrite summary_funcs_ok.
     rewrite render_summary_rows, summary_ast_parts. destruct it as [t els tots]. cbn [ri_time ri_elements ri_totals].
-    unfold exec_template.
     erewrite exec_list_cons; [| apply exec_action with (s := fdate c t); reflexivity |].
     2:{ eapply exec_list_cons; [apply exec_text |].
         eapply exec_list_cons.
@@ -426,6 +433,32 @@ Section Templates.
     parse_template src = Some summary_ast ->
     option_bind (parse_template src) (fun a => exec_template fe a (item_value NM it)) = Some (render_summary NM c it).
   Proof. intros H. rewrite H. apply exec_summary. Qed.
+  (** ** the reporters: what [regReporterTemplate] / [SummaryReporterTemplate] write for a day is the
+      evaluation of the template text over the value of [GetReportItem] *)
+
+  Theorem rep_template_text (d : list (bytes * elements NM)) (perm : list bytes -> list bytes) (ln : lognode NM) (src : bytes) :
+    parse_template src = Some (if beq (rc_template c) (b "left-aligned") then left_ast else default_ast) ->
+    exists out,
+      option_bind (parse_template src)
+                  (fun a => exec_template fe a (item_value NM (get_report_item NM c perm d ln))) = Some out
+      /\ r_process NM (rep_template NM c d) perm tt ln = (tt, [checked out], None).
+  Proof.
+    intros H. rewrite H. cbn [option_bind obind r_process rep_template].
+    destruct (beq (rc_template c) (b "left-aligned")).
+    - exists (render_left NM c (get_report_item NM c perm d ln)). split; [apply exec_left | reflexivity].
+    - exists (render_default NM c (get_report_item NM c perm d ln)). split; [apply exec_default | reflexivity].
+  Qed.
+
+  Theorem rep_summary_text (d : list (bytes * elements NM)) (perm : list bytes -> list bytes) (ln : lognode NM) (src : bytes) :
+    parse_template src = Some summary_ast ->
+    exists out,
+      option_bind (parse_template src)
+                  (fun a => exec_template fe a (item_value NM (get_report_item NM c perm d ln))) = Some out
+      /\ r_process NM (rep_summary NM c d) perm tt ln = (tt, [checked out], None).
+  Proof.
+    intros H. rewrite H. cbn [option_bind obind r_process rep_summary].
+    exists (render_summary NM c (get_report_item NM c perm d ln)). split; [apply exec_summary | reflexivity].
+  Qed.
 End Templates.
 
 (** * the pinned source texts parse to the three trees (finite: by computation) *)
